@@ -47,8 +47,10 @@ def configs(tier):
             out.append(dict(op=op, rhs="Array", dta=dta, dtb=dtb, sa=list(sa), sb=list(sb), ua=ua, ub=ub))
         for rhs in ("int", "float", "ndarray", "Quantity"):
             for dta in ["float64", "int64"] + (["float32", "int32"] if tier != "quick" else []):
-                for ua, ub in [("m", "cm"), ("dimensionless", "dimensionless"), ("g", "s"), ("cm", "pc")]:
-                    if rhs != "Quantity" and (ua, ub) not in (("m", "cm"), ("dimensionless", "dimensionless")):
+                for ua, ub in [("m", "cm"), ("dimensionless", "dimensionless"), ("g", "s"), ("cm", "pc"), ("km/m", "dimensionless"),
+                               ("percent", "dimensionless")]:
+                    if rhs != "Quantity" and (ua, ub) not in (("m", "cm"), ("dimensionless", "dimensionless"), ("km/m", "dimensionless"),
+                                                              ("percent", "dimensionless")):
                         continue
                     out.append(dict(op=op, rhs=rhs, dta=dta, dtb=("int64" if rhs == "int" else "float64"), sa=[2],
                                     sb=([] if rhs in ("int", "float") else [2]), ua=ua,
@@ -129,7 +131,7 @@ def body(m, cfg):
     rv = [bool(v) for v in np.asarray(r._array).ravel().tolist()]
     if len(rv) != len(ia):
         return
-    exact = (cfg["ua"] == cfg["ub"]) or (rhs != "Array" and rhs != "Quantity" and cfg["ua"] == "dimensionless")
+    exact = (cfg["ua"] == cfg["ub"])
     fs = []
     for claimed, i, j in zip(rv, ia, ib):
         x, y = m.t(av[i]) * fa, m.t(bv[j]) * fb
